@@ -1,3 +1,4 @@
+import PT.Lemmas.CanonViews
 import PT.Lemmas.Views
 import PT.Lemmas.Reach
 /-!
@@ -10,8 +11,8 @@ import PT.Lemmas.Reach
 strictly above that node; the whole-map view is good and every navigation step preserves it.
 
 The last clause of the property (for tries modified only by insert / remove / retain / clear a
-sub-view or side exists exactly when it contains an entry) needs the canonical-shape invariant and
-is decided by correspondence on canonical-alphabet traces, not by a theorem here.
+sub-view or side exists exactly when it contains an entry) rests on the canonical-shape invariant
+`PMap.Canonical` (established for those histories by `PT.C15.canonical_after_history`).
 -/
 namespace PT.C11
 open Tree Pfx View
@@ -83,5 +84,60 @@ theorem sides_disjoint (P : Pfx w) (e : Pfx w × V) :
     ¬ (P.net ++ [false] <+: e.1.net ∧ P.net ++ [true] <+: e.1.net) := by
   rintro ⟨h1, h2⟩
   exact List.not_prefix_of_sides (x := false) (y := true) (by simp) h1 h2 (List.prefix_refl _)
+
+
+/-! ### canonical tries: a sub-view or side exists exactly when it contains an entry -/
+
+/-- in a canonical trie every view other than the whole-map view holds at least one entry -/
+theorem canonical_view_nonempty {m : PMap w V} (h : m.TreeWF) (c : m.Canonical) {v : View w}
+    (hg : Good m.root v) (hne : v ≠ View.root) : v.ents m.root ≠ [] := PMap.view_nonempty h c hg hne
+
+/-- `view_at(q)` exists exactly when `q` is the zero-length prefix (the whole-map view always
+exists) or some stored prefix is covered by `q` -/
+theorem view_at_exists_iff {m : PMap w V} (h : m.TreeWF) (c : m.Canonical) (q : Pfx w) :
+    ((View.root : View w).find m.root q).isSome = true ↔ q.net = [] ∨ ∃ e ∈ m.entries, q.net <+: e.1.net := by
+  constructor
+  · intro hs
+    obtain ⟨v, hv⟩ := Option.isSome_iff_exists.1 hs
+    obtain ⟨hg, ⟨P, hP, hPq⟩, hm⟩ := view_at_some h q v hv
+    by_cases hr : v = View.root
+    · left
+      obtain ⟨p, x, l, r, hroot, hpn⟩ := h.root
+      rw [hr] at hP
+      simp only [View.pfx, View.root, View.node, Tree.sub_nil, hroot, Tree.pfx?, Option.some.injEq] at hP
+      rw [← hPq, ← hP, hpn]
+    · right
+      obtain ⟨e, he⟩ := List.exists_mem_of_ne_nil _ (PMap.view_nonempty h c hg hr)
+      rw [← view_iter] at he
+      exact ⟨e, ((hm e).1 he).1, ((hm e).1 he).2⟩
+  · rintro (hq | ⟨e, he, hc⟩)
+    · obtain ⟨p, x, l, r, hroot, hpn⟩ := h.root
+      have hrq : p.net = q.net := by rw [hpn, hq]
+      have hlen : ¬ q.len < p.len := by
+        have := congrArg List.length hrq
+        rw [Pfx.net_length, Pfx.net_length] at this
+        omega
+      simp [View.find, View.root, View.node, Tree.sub_nil, hroot, Tree.pfx?, hlen, Tree.findGo,
+        dirIns_of_net_eq hrq]
+    · cases hf : (View.root : View w).find m.root q with
+      | some v => rfl
+      | none => exact absurd hc (view_at_none h q hf e he)
+
+/-- `left()` / `right()` (`has_left` / `has_right`, the components of `split()`) exist exactly when
+the view holds an entry on that side -/
+theorem side_exists_iff {m : PMap w V} (h : m.TreeWF) (c : m.Canonical) {v : View w} (hg : Good m.root v)
+    {P : Pfx w} (hP : v.pfx m.root = some P) (b : Bool) :
+    (View.side m.root v b).isSome = true ↔ ∃ e ∈ v.ents m.root, P.net ++ [b] <+: e.1.net := by
+  have hspec := View.side_spec hg hP b
+  constructor
+  · intro hs
+    obtain ⟨v', hv'⟩ := Option.isSome_iff_exists.1 hs
+    obtain ⟨hg', hm⟩ := hspec.2 v' hv'
+    obtain ⟨e, he⟩ := List.exists_mem_of_ne_nil _ (PMap.view_nonempty h c hg' (PMap.side_ne_root h hg b hv'))
+    exact ⟨e, ((hm e).1 he).1, ((hm e).1 he).2⟩
+  · rintro ⟨e, he, hc⟩
+    cases hf : View.side m.root v b with
+    | some v' => rfl
+    | none => exact absurd hc (hspec.1 hf e he)
 
 end PT.C11
